@@ -202,7 +202,7 @@ def setup(ctx):
         req += [f + ":consistency", f + ":mirror"]
     for f in ("sw-hll", "euler-hlle", "euler-hllc", "euler2d-hlle"):
         req.append(f + ":upwind")
-    ctx.require(*req, "scalar-calls", "integer-typed")
+    ctx.require(*req, "scalar-calls", "integer-typed", "elementwise-subsets")
 
 
 def teardown(ctx):
@@ -236,6 +236,24 @@ def _wave_pairs(rng, n, cfun):
     return mL, mR
 
 
+def _subsets(ctx, rng, tag, call, L, R, F, masks, nrm=None):
+    """elementwise: the flux of one pair of states must not depend on which other pairs are in the same call.  Sub-arrays
+    selected by regime (a reduction over the whole array deciding a branch shows here), by position and at random are
+    re-evaluated by the real function and compared bit for bit with the full-array result."""
+    n = np.asarray(L[0]).shape[-1]
+    masks = dict(masks, **{"random-half": rng.random(n) < 0.5, "first-one": np.arange(n) < 1, "last-two": np.arange(n) >= n - 2})
+    for sname, msk in masks.items():
+        if not np.any(msk):
+            continue
+        with probes.quiet():
+            sub = call([np.asarray(x)[..., msk] for x in L], [np.asarray(x)[..., msk] for x in R], None if nrm is None else nrm[..., msk])
+        for i, (a, b) in enumerate(zip(sub, F)):
+            a = np.asarray(a, float); b = np.asarray(b, float)[..., msk]
+            a, b = np.broadcast_arrays(a, b)
+            same = (a == b) | (np.isnan(a) & np.isnan(b))
+            ctx.true("elementwise-subsets", bool(np.all(same)), tag + "/flux-depends-on-the-other-elements-of-the-array", None if np.all(same) else {"subset": sname, "equation": i, "index in subset": int(np.flatnonzero(~same.reshape(-1, same.shape[-1]).all(axis=0))[0]), "max diff": float(np.nanmax(np.abs(a - b)))}, cls="elementwise-subsets")
+
+
 @group(quick=40, thorough=4000)
 def pairs_convection(ctx, rng, idx):
     a = float(rng.choice([1.0, -1.0, 0.0, rng.uniform(-5, 5), 10 ** rng.uniform(-3, 3) * rng.choice([-1, 1])]))
@@ -243,7 +261,8 @@ def pairs_convection(ctx, rng, idx):
     ctx.describe(model="convection", convcoef=a, L=L[:6], R=R[:6], npairs=400)
     model = conv.model(a)
     gen.maybe_decoy(rng)
-    model.numflux(None, [L], [R])
+    F = model.numflux(None, [L], [R])
+    _subsets(ctx, rng, "convection", lambda l, r, d: model.numflux(None, l, r), [L], [R], F, {"equal": L == R, "positive": (L > 0) & (R > 0), "negative": (L < 0) & (R < 0)})
     ctx.nontrivial("conv", a, L[:4], R[:4])
 
 
@@ -251,7 +270,9 @@ def pairs_convection(ctx, rng, idx):
 def pairs_burgers(ctx, rng, idx):
     L, R = _pairs_scalar(rng, 200)
     ctx.describe(model="burgers", L=L[:6], R=R[:6], npairs=200)
-    burgers.model().numflux(None, [L], [R])
+    bm = burgers.model()
+    F = bm.numflux(None, [L], [R])
+    _subsets(ctx, rng, "burgers", lambda l, r, d: bm.numflux(None, l, r), [L], [R], F, {"equal": L == R, "right-running": (L > 0) & (R > 0), "left-running": (L < 0) & (R < 0), "shock": L > R, "rarefaction": L < R, "transonic-rarefaction": (L < 0) & (R > 0), "opposite": L == -R})
     ctx.nontrivial("burgers", L[:4], R[:4])
 
 
@@ -270,7 +291,9 @@ def pairs_sw(ctx, rng, idx):
     ctx.describe(model="shallowwater", g=g, flux=flux, hL=hL[:5], uL=uL[:5], hR=hR[:5], uR=uR[:5], npairs=n, huge_ratio=big)
     model = shw.shallowwater1d(g=g)
     gen.maybe_decoy(rng)
-    model.numflux(flux, [hL, uL], [hR, uR])
+    F = model.numflux(flux, [hL, uL], [hR, uR])
+    _subsets(ctx, rng, "sw-" + flux, lambda l, r, d: model.numflux(flux, l, r), [hL, uL], [hR, uR], F,
+             {"equal": (hL == hR) & (uL == uR), "supercritical-right": (mL > 1) & (mR > 1), "supercritical-left": (mL < -1) & (mR < -1), "subcritical": (np.abs(mL) < 1) & (np.abs(mR) < 1), "at-rest": (uL == 0) & (uR == 0)})
     ctx.nontrivial("sw", flux, g, hL[:4], uL[:4])
 
 
@@ -291,6 +314,9 @@ def pairs_euler1d(ctx, rng, idx):
     gen.maybe_decoy(rng, 0.5)
     ctx.describe(model=type(model).__name__, gamma=gam, flux=flux, L=[rL[:4], uL[:4], pL[:4]], R=[rR[:4], uR[:4], pR[:4]], npairs=n, huge_ratio=big)
     F = model.numflux(flux, [rL, uL, pL], [rR, uR, pR])
+    _subsets(ctx, rng, "euler-" + flux, lambda l, r, d: model.numflux(flux, l, r), [rL, uL, pL], [rR, uR, pR], F,
+             {"equal": (rL == rR) & (uL == uR) & (pL == pR), "supersonic-right": (mL > 1) & (mR > 1), "supersonic-left": (mL < -1) & (mR < -1), "subsonic": (np.abs(mL) < 1) & (np.abs(mR) < 1),
+              "at-rest": (uL == 0) & (uR == 0), "right-running": (uL > 0) & (uR > 0), "left-running": (uL < 0) & (uR < 0)})
     # the same states one by one as python floats and as numpy scalars (1D boundary faces are evaluated that way): judged by the
     # monitor like any other call, and equal to the array result up to the libm-pow ulp
     for j in rng.integers(0, n, 6):
@@ -325,7 +351,10 @@ def pairs_euler2d(ctx, rng, idx):
     ctx.describe(model="euler2d", gamma=gam, flux=flux, L=[rL[:3], VL[:, :3], pL[:3]], R=[rR[:3], VR[:, :3], pR[:3]], dir=nrm[:, :3], npairs=n)
     model = euler.euler2d(gamma=gam)
     gen.maybe_decoy(rng, 0.5)
-    model.numflux(flux, [rL, VL, pL], [rR, VR, pR], nrm)
+    F = model.numflux(flux, [rL, VL, pL], [rR, VR, pR], nrm)
+    _subsets(ctx, rng, "euler2d-" + flux, lambda l, r, d: model.numflux(flux, l, r, d), [rL, VL, pL], [rR, VR, pR], F,
+             {"x-faces": dirx, "y-faces": ~dirx, "supersonic-right": (mL > 1) & (mR > 1), "supersonic-left": (mL < -1) & (mR < -1), "subsonic": (np.abs(mL) < 1) & (np.abs(mR) < 1),
+              "no-tangential-velocity": (tL == 0) & (tR == 0)}, nrm=nrm)
     ctx.nontrivial("euler2d", flux, gam, rL[:4], VL[:, :4])
 
 
